@@ -80,7 +80,8 @@ var vfSSizes = []int{1, 10, 600, 1400, 1480, 1500, 1520, 2900, 3000, 3100, 4500,
 
 func vfGenSCase(r *vfRand, id int) *vfSCase {
 	cs := &vfSCase{ID: id, Kind: "session-ops"}
-	vals := []string{"", "v1", "value-2", "user@example.com", "/app/deep?x=1", strings.Repeat("n", 43), "ünï", "a b"}
+	vals := []string{"", "v1", "value-2", "user@example.com", "/app/deep?x=1", strings.Repeat("n", 43), "ünï", "a b",
+		"Alice.Smith@Contoso.OnMicrosoft.COM", " carol@example.com ", "UPPER/Path?Q=1", "tab\tand\nnewline", "trailing/ "}
 	nreq := 3 + r.intn(6)
 	for i := 0; i < nreq; i++ {
 		rq := vfSReq{Path: vfPick(r, "/", "/app", "/app/deep/page", "/oauth2/callback")}
